@@ -408,3 +408,76 @@ Section InstallProofs.
       pose proof (Hsub p v1 E1) as H0. rewrite (NM p v1 H0) in Hl. congruence.
   Qed.
 End InstallProofs.
+
+(* ---------- after a completed run the record tracks what is installed, for every required package ---------- *)
+Section Tracks.
+  Variable vvalid : str -> bool.
+  Variable vle : str -> str -> bool.
+  Local Notation decide_pkg := (decide_pkg vvalid vle).
+  Local Notation plan := (plan vvalid vle).
+  Local Notation install := (install vvalid vle).
+  Local Notation veq := (veq vle).
+
+  Lemma decide_keep_inv recv inst want v : decide_pkg recv inst want = DKeep -> recv = Some v ->
+    exists iv, truthy inst = Some iv /\ (v = iv \/ (vvalid v = true /\ vvalid iv = true /\ veq v iv = true)).
+  Proof.
+    unfold Install.decide_pkg. intros H Hr. subst recv. destruct (truthy inst) as [iv|]; [|discriminate].
+    exists iv. split; [reflexivity|]. destruct want as [w|].
+    - destruct (vvalid v) eqn:Ev, (vvalid iv) eqn:Ei; cbn [negb orb] in H; try discriminate.
+      destruct (veq v iv) eqn:Eq; cbn [negb] in H; [|discriminate]. right. tauto.
+    - destruct (str_eqb v iv) eqn:E; cbn [negb] in H; [|discriminate]. left. apply str_eqb_eq. exact E.
+  Qed.
+
+  Lemma plan_no_raise : forall t rec todo rec1 todo1, NoDup (map fst t) -> plan rec t todo = Some (rec1, todo1) ->
+    forall n e, In (n, e) t -> decide_pkg (alookup n rec) (e_inst e) (e_ver e) <> DRaise.
+  Proof.
+    induction t as [|[n0 e0] r IH]; intros rec todo rec1 todo1 ND H n e Hin; [destruct Hin|].
+    cbn [map fst] in ND. inversion ND as [|? ? Hn0 ND']; subst. cbn [Install.plan] in H.
+    destruct Hin as [Hin|Hin].
+    - inversion Hin; subst. destruct (decide_pkg (alookup n rec) (e_inst e) (e_ver e)); discriminate.
+    - assert (Hne : n <> n0) by (intros E; subst; apply Hn0; exact (In_keys _ _ _ Hin)).
+      destruct (decide_pkg (alookup n0 rec) (e_inst e0) (e_ver e0)) eqn:D; try discriminate.
+      + exact (IH _ _ _ _ ND' H n e Hin).
+      + exact (IH _ _ _ _ ND' H n e Hin).
+      + pose proof (IH _ _ _ _ ND' H n e Hin) as G. rewrite alookup_aremove in G.
+        apply str_eqb_neq in Hne. rewrite Hne in G. exact G.
+  Qed.
+
+  (* hypotheses on the installer: it changes only the packages it was asked to install, and a pinned requirement ends up
+     installed at exactly that version *)
+  Theorem install_tracks inst allow ia rec0 t todo r u : table_wf inst t -> pins_not_marker t ->
+    NoDup (map fst rec0) -> no_marker rec0 ->
+    (forall p, ~ In p (map fst todo) -> ia p = inst p) ->
+    (forall p w, In (p, Some w) todo -> truthy (ia p) = Some w) ->
+    install allow ia rec0 t = ODone todo r u ->
+    forall p e v, tlookup p t = Some e -> alookup p r = Some v ->
+    exists iv, truthy (ia p) = Some iv /\ (v = iv \/ (vvalid v = true /\ vvalid iv = true /\ veq v iv = true)).
+  Proof.
+    intros WF PM ND0 NM Hoth Hpin H p e v Hl Hr.
+    destruct (install_record vvalid vle inst allow ia rec0 t todo r u WF PM ND0 NM H) as (R1 & R2 & R3).
+    destruct (in_dec str_dec p (map fst todo)) as [Hin|Hin].
+    - apply in_map_iff in Hin. destruct Hin as ([p' [w|]] & E & Hin); cbn [fst] in E; subst p'.
+      + rewrite (R1 p w Hin) in Hr. inversion Hr; subst. exists v. split; [exact (Hpin p v Hin)|left; reflexivity].
+      + rewrite (R2 p Hin) in Hr. exists v. split; [exact Hr|left; reflexivity].
+    - pose proof (R3 p v Hr Hin) as H0.
+      destruct (install_done vvalid vle _ _ _ _ _ _ _ H) as (rec1 & Hp & Hf).
+      destruct WF as [NDt Hi].
+      pose proof (tlookup_In p e t Hl) as HIn.
+      destruct (plan_spec vvalid vle t rec0 [] rec1 todo NDt Hp) as ((extra & Ht & Hx) & _ & Hr2). cbn [app] in Ht. subst extra.
+      pose proof (plan_no_raise t rec0 [] rec1 todo NDt Hp p e HIn) as NR.
+      assert (ND1 : NoDup (map fst rec1)).
+      { clear - Hp ND0. revert Hp. generalize (@nil (str * option str)). revert rec0 ND0.
+        induction t as [|[n e] t' IH]; intros rec0 ND0 acc Hp; cbn [Install.plan] in Hp.
+        - inversion Hp; subst. exact ND0.
+        - destruct (decide_pkg (alookup n rec0) (e_inst e) (e_ver e)); try discriminate;
+            try (eapply IH; [|exact Hp]; try exact ND0; apply aremove_NoDup; exact ND0). }
+      pose proof (finish_lookup ia rec0 rec1 todo r u p ND1 Hf) as F. rewrite set_all_other in F by exact Hin.
+      rewrite Hr in F. rewrite (Hr2 p e HIn) in F.
+      destruct (decide_pkg (alookup p rec0) (e_inst e) (e_ver e)) eqn:D.
+      + exfalso. apply Hin. apply (In_keys p (e_ver e)). apply Hx. exists e. tauto.
+      + destruct (decide_keep_inv _ _ _ v D H0) as (iv & Ti & Hv). exists iv. split; [|exact Hv].
+        rewrite (Hoth p Hin). rewrite <- (Hi p e Hl). exact Ti.
+      + discriminate.
+      + congruence.
+  Qed.
+End Tracks.
